@@ -91,7 +91,7 @@ func C15(t Tier) int {
 		var seq func(cur []int)
 		seq = func(cur []int) {
 			if len(cur) > 0 {
-				for arr := 0; arr < 4; arr++ {
+				for arr := 0; arr < 5; arr++ {
 					for fi, fee := range fees {
 						// build the message list for this arrangement
 						var msgs []sdk.Msg
@@ -140,6 +140,20 @@ func C15(t Tier) int {
 							for i, mi := range cur[1:] {
 								msgs = append(msgs, menu[mi].mk(e.W, i))
 								names = append(names, menu[mi].name)
+							}
+						case 4: // messages of A first, then an add-record with a named fee payer that is NOT the first message:
+							// signers [A, F, W]; the transaction's fee payer is its first signer A, never the co-signer F
+							for i, mi := range cur {
+								msgs = append(msgs, menu[mi].mk(e.A, i))
+								names = append(names, menu[mi].name)
+							}
+							addSigner(e.A)
+							msgs = append(msgs, aoltypes.NewMsgAddRecordRequest("a", []byte("k15"), []byte("v15"), e.W.Bech, e.A.Bech, e.F.Bech))
+							names = append(names, "add-record(feepayer=F,last)")
+							addSigner(e.F)
+							addSigner(e.W)
+							if bn == "empty" {
+								expectOK = false
 							}
 						case 2: // messages of two different signers in one transaction
 							for i, mi := range cur {
@@ -264,7 +278,7 @@ func C15(t Tier) int {
 	sort.Strings(oc)
 	run.Coverage["evaluations"] = evals
 	run.Coverage["distinct_nontrivial"] = okTx + failedTx
-	run.Coverage["rule"] = "in each base state (empty, populated) every transaction of 1..3 messages drawn from {one succeeding, one failing message per custom module} x fee in {0, 1000umed, 1000umed+5uxyz} x arrangement in {single signer A; add-record with named fee payer F first (signers [F,W]); messages of A and B alternating}, delivered on a fork of the real deliver state; all bank balances and the total supply are compared before/after. non-trivial = transactions that reached DeliverTx with the expected verdict"
+	run.Coverage["rule"] = "in each base state (empty, populated) every transaction of 1..3 messages drawn from {one succeeding, one failing message per custom module} x fee in {0, 1000umed, 1000umed+5uxyz} x arrangement in {single signer A; add-record with named fee payer F first (signers [F,W]); the same with a fee payer sorting on the other side of the writer; messages of A and B alternating; messages of A followed by an add-record naming fee payer F (signers [A,F,W], payer A)}, delivered on a fork of the real deliver state; all bank balances and the total supply are compared before/after. non-trivial = transactions that reached DeliverTx with the expected verdict"
 	run.Coverage["samples"] = samples
 	run.Coverage["exhaustive"] = true
 	run.Coverage["succeeded"] = okTx
